@@ -11,6 +11,7 @@ import math
 import numpy as np
 
 from geodepy.geodesy import vincinv_utm, vincdir_utm, line_sf
+from gpmc import cfg
 from gpmc import oracle_tm, oracle_geod as og
 from gpmc.core import Sub, HarnessError
 
@@ -35,6 +36,13 @@ def prepare(tier, seed):
 
 def evidence_extra():
     return {'oracle_selfcheck': dict(_SC)}
+
+
+def use_ell(name):
+    """the oracle helpers of this module work on one ellipsoid at a time (module-level A_, F_): set it for the case at hand"""
+    global A_, F_
+    A_, F_ = cfg.ELL_AF[name]
+    return cfg.ell_obj(name)
 
 
 def cm(zone):
@@ -106,6 +114,25 @@ def gen(tier, seed):
                     yield {'south': south, 'zone': z, 'e1': e1, 'n1': n1, 'brgs': [round(b % 360.0, 6) for b in brgs], 'lengths': LENGTHS}
 
 
+def gen_ell(tier, seed):
+    """the same space on other ellipsoids (the functions take the ellipsoid as an argument; every step of the computation,
+    including the re-projection of a second point given in the adjacent zone, must use it)"""
+    ells = ['intl24', 'ans', 'e63_150'] if tier == 'quick' else ['intl24', 'ans', 'wgs84', 'e63_150', 'g64_320']
+    brgs = [20.0, 110.0, 200.0, 290.0] if tier == 'quick' else [20.0, 65.0, 110.0, 155.0, 200.0, 245.0, 290.0, 335.0]
+    for ell in ells:
+        if ell not in cfg.ELL_AF:
+            continue
+        use_ell(ell)
+        for south, lats in ((True, [-70.0, -33.0, -2.0]), (False, [2.0, 45.0, 80.0])):
+            for z in (2, 55):
+                for lat in lats:
+                    e_, n_, _, _ = to_grid(lat, cm(z), z, south)
+                    n1 = round(float(n_[0]), 4)
+                    for e1 in (1e5, 2.2e5, 5e5, 7.8e5, 9e5):
+                        yield {'ell': ell, 'south': south, 'zone': z, 'e1': e1, 'n1': n1, 'brgs': brgs, 'lengths': [100.0, 3e4, 1e5]}
+    use_ell('grs80')
+
+
 def gen_both(tier, seed):
     # identical (zone, easting, northing) interpreted in the southern and then the northern hemisphere (and the reverse)
     # inside one process
@@ -126,6 +153,15 @@ def angdiff(a, b):
 
 
 def ev(case, rec):
+    ell = case.get('ell', 'grs80')
+    EOBJ = use_ell(ell)
+    try:
+        ev1(case, rec, ell, EOBJ)
+    finally:
+        use_ell('grs80')
+
+
+def ev1(case, rec, ell, EOBJ):
     south, z1, e1, n1 = case['south'], case['zone'], case['e1'], case['n1']
     hemi = 'south' if south else 'north'
     la1, lo1, k1, g1 = to_geo(z1, e1, n1, south)
@@ -152,20 +188,22 @@ def ev(case, rec):
                 ee, nn, _, _ = to_grid(la2, lo2, z2, south)
                 variants.append(('adjacent', z2, round(float(ee[0]), 4), round(float(nn[0]), 4)))
             for vname, z2, ee2, nn2 in variants:
-                one = {'south': south, 'zone': z1, 'e1': e1, 'n1': n1, 'brgs': [b], 'lengths': [L], 'variant': vname}
-                co = {'zone1': z1, 'zone2': z2, 'len': L, 'brg': b, 'hemi': hemi, 'variant': vname, 'lat1': la1}
+                one = {'ell': ell, 'south': south, 'zone': z1, 'e1': e1, 'n1': n1, 'brgs': [b], 'lengths': [L], 'variant': vname}
+                if case.get('_env'):
+                    one['_env'] = case['_env']
+                co = {'ell': ell, 'zone1': z1, 'zone2': z2, 'len': L, 'brg': b, 'hemi': hemi, 'variant': vname, 'lat1': la1}
                 # exact positions of the two points as given (each in its own zone)
                 q2 = to_geo(z2, ee2, nn2, south)
                 la2g, lo2g, g2g = float(q2[0][0]), float(q2[1][0]), float(q2[3][0])
-                st, r = rec.call(vincinv_utm, z1, e1, n1, z2, ee2, nn2, hemi)
+                st, r = rec.call(vincinv_utm, z1, e1, n1, z2, ee2, nn2, hemi, EOBJ)
                 if st != 'ok':
                     rec.fail('vincinv_utm raised on valid grid points', site='geodesy:vincinv_utm', observed=r, case=one, coords=co)
                     continue
                 gd, b12, b21, lsf = r
-                rec.nontriv((south, z1, e1, n1, b, L, vname))
+                rec.nontriv((ell, south, z1, e1, n1, b, L, vname))
                 if L == 100.0:
                     for sp in (hemi.upper(), hemi.capitalize()):
-                        stf, rf = rec.call(vincinv_utm, float(z1), e1, n1, z2, ee2, nn2, sp)
+                        stf, rf = rec.call(vincinv_utm, float(z1), e1, n1, z2, ee2, nn2, sp, EOBJ)
                         if stf != 'ok' or tuple(rf) != tuple(r):
                             rec.fail('hemisphere spelling %r / zone given as float changes the result' % sp, site='geodesy:vincinv_utm:input-form',
                                      observed=rf, expected=list(r), case=one, coords=co)
@@ -207,13 +245,13 @@ def ev(case, rec):
                     bad = True
                     rec.fail('line scale factor differs from the Simpson mean of the point scale factors by more than 5e-7',
                              site='geodesy:line_sf:simpson', observed=lsf, expected=simpson, tol=5e-7, case=one, coords=co)
-                st, ls = rec.call(line_sf, z1, e1, n1, z2, ee2, nn2, hemi)
+                st, ls = rec.call(line_sf, z1, e1, n1, z2, ee2, nn2, hemi, EOBJ)
                 if st != 'ok' or abs(ls - lsf) > 1e-12:
                     bad = True
                     rec.fail('line_sf disagrees with the line scale factor reported by vincinv_utm', site='geodesy:line_sf:consistency',
                              observed=ls, expected=lsf, case=one, coords=co)
                 # depth 2: the direct computation with the inverse's output reproduces point 2 in zone 1
-                st, d = rec.call(vincdir_utm, z1, e1, n1, b12, gd, hemi)
+                st, d = rec.call(vincdir_utm, z1, e1, n1, b12, gd, hemi, EOBJ)
                 if st != 'ok':
                     bad = True
                     rec.fail('vincdir_utm raised on the output of vincinv_utm', site='geodesy:vincdir_utm', observed=d, case=one, coords=co)
@@ -238,7 +276,7 @@ def ev(case, rec):
     rec.sample({'case': dict(case, brgs=case['brgs'][:2])})
 
 
-SUBCHECKS = [Sub('grid_geodesic', gen, ev, chunk=1, floor=500, guard=True, envs=8), Sub('both_hemispheres', gen_both, ev_both, chunk=1, floor=100, guard=True, envs=4)]
+SUBCHECKS = [Sub('grid_geodesic', gen, ev, chunk=1, floor=500, guard=True, envs=8), Sub('ellipsoids', gen_ell, ev, chunk=1, floor=300, guard=True), Sub('both_hemispheres', gen_both, ev_both, chunk=1, floor=100, guard=True, envs=4)]
 
 
 def bounds(tier, seed):
